@@ -36,6 +36,7 @@ class ExprBinModel(ExprModel):
         self.is_composite = False
         self._width_valid = False
         self._width = -1
+        self._dynamic_width = None
         
     def build_composite(self, btor, lhs, rhs):
         if isinstance(lhs, FieldCompositeModel):
@@ -165,6 +166,19 @@ class ExprBinModel(ExprModel):
     def is_signed(self):
         return (self.lhs.is_signed() and self.rhs.is_signed())
     
+    def _has_dynamic_width(self):
+        # The width of a dynamic operand (eg list.sum) follows the size
+        # of its list: it changes from call to call, and within a call 
+        # once a random size is solved
+        from vsc.model.expr_dynamic_model import ExprDynamicModel
+        if self._dynamic_width is None:
+            self._dynamic_width = False
+            for e in (self.lhs, self.rhs):
+                if isinstance(e, ExprDynamicModel) or (
+                    isinstance(e, ExprBinModel) and e._has_dynamic_width()):
+                    self._dynamic_width = True
+        return self._dynamic_width
+    
     def width(self):
         if not self._width_valid:
             if self.op in (BinExprType.Eq, BinExprType.Ge, BinExprType.Le,
@@ -174,7 +188,7 @@ class ExprBinModel(ExprModel):
                 lhs_w = self.lhs.width()
                 rhs_w = self.rhs.width()
                 self._width = lhs_w if lhs_w > rhs_w else rhs_w
-            self._width_valid = True
+            self._width_valid = not self._has_dynamic_width()
         return self._width
     
     def __str__(self):
